@@ -85,6 +85,22 @@ PROPS = {
         explanation="All clauses of C14 are postconditions/invariants of get_options, set_options, global_options and a "
                     "whole-repository frame scan; every obligation is discharged by z3 with dicts as arrays.",
     ),
+    "C01": dict(level="other", contracts=[], explanation="Bounded run-time contracts only so far (conc/checks_c01.py): exact "
+                "sparse-polynomial oracle for + - * ** incl. mixed operand kinds, broadcasting, composition laws.",
+                trusted_base=COMMON_TRUSTED),
+    "C15": dict(level="other", contracts=["numpoly.postprocess_attributes", "numpoly.polynomial_from_attributes", "numpoly.clean_attributes"],
+                explanation="Every verification condition of the construct/align/compare/leading contracts is generated with the "
+                "option dictionary symbolic (get_options() is a contract returning an arbitrary map satisfying the module invariant); "
+                "the retain_* options enter postconditions only through the pruning clauses, the sort_* options only as the order "
+                "parameter. Here the construct contracts are re-posed (results well-formed, values kept, no failure under any "
+                "setting); the operation catalogue under random option settings is a bounded run-time check with the default-options "
+                "run as oracle.", trusted_base=COMMON_TRUSTED),
+    "C17": dict(level="other", contracts=["numpoly.align_shape", "numpoly.align_exponents", "numpoly.greater", "numpoly.equal",
+                                          "numpoly.not_equal", "numpoly.lead_coefficient", "numpoly.lead_exponent"],
+                explanation="Frame obligations: at every write statement of a function under contract the executor poses "
+                "'target region is fresh or a declared output', with regions tracked through views (.values columns, ravel). "
+                "Re-posed here for functions whose anchors the property names; byte-level snapshots of arguments around 82 public "
+                "operations are the bounded run-time check.", trusted_base=COMMON_TRUSTED),
     "C02": dict(level="other", contracts=[], explanation="Bounded run-time contracts only so far (conc/checks_c02.py): exact "
                 "evaluation/substitution oracle; the contract of poly_function.call is not yet under the VC generator.",
                 trusted_base=COMMON_TRUSTED, assumptions=["machine integer arithmetic outside int64 is out of scope (numpy semantics)"]),
